@@ -18,6 +18,16 @@ claim("C07", "exploration", "runtime invariant monitor at quiescent points (hook
       "After every step of random op/gc histories: equal family <=> equal root per arena, every stored node reduced and ordered (via the H2 node dump), gc-returned handles denote the pre-gc families, iteration yields each member once in ascending order.",
       "Needs hook H2 (cfg varpulis_verif). Canonicity is only comparable inside one arena.", "DESIGN §2 C07")
 
+claim("C01", "exploration", "runtime monitor: independent soundness oracle over every emitted match",
+      "Every match emitted by the real parse->load->process path for generated 1-4 step sequence programs (arrow and sequence() forms, optional all / partition_by / .not) is re-checked against the input stream with an evaluator that shares no code with the engine: arrival order, step types, step filters incl. cross-alias references, one partition value, no clause-satisfying negated event inside.",
+      "Filters are limited to well-typed int/float/string comparisons so that evaluator corner cases (C08/C09) cannot leak in; .not is read per partition.", "DESIGN §2 C01")
+claim("C02", "exploration", "runtime monitor: reference implementation of earliest-continuation semantics (differential)",
+      "Multiset of uid tuples emitted by the engine == multiset computed by a 60-line reference matcher, for random programs x random streams and (thorough) all short streams over a reduced alphabet. Disagreements are classified by alternative models (global-negation reading, deferred 1-step completion) so that findings have exact signatures.",
+      "Reference semantics = the property's text; matches completing at one event are unordered.", "DESIGN §2 C02")
+claim("C03", "exploration", "runtime monitor: brute-force subset oracle + hook H1 (enumerated Kleene combinations)",
+      "For streams A B^n C (n<=14) and both predicate classes the kept B's, the number of matches and (via hook H1) the uid set of every enumerated combination are compared with brute force over all ordered subsets, under every cap setting; `all` as last step included; VPL form cross-checked by match counts.",
+      "Needs hook H1 (cfg varpulis_verif). Which events survive a max_kleene_events truncation is not specified and not checked beyond count/order/membership.", "DESIGN §2 C03")
+
 NOT_BUILT = "check not built yet in this session (see DESIGN.md §2 for the planned monitor); nothing is claimed for it"
 
 checks = []
